@@ -63,9 +63,9 @@ engines = [
 props = [json.loads(l) for l in open(os.path.join(V, "properties.jsonl"))]
 m = {"version":1, "setup_cmd":"./check build",
  "hooks":{"guard":"verif",
-   "enable":"each check copies /repo's working tree to a scratch dir, instruments the copy with tools/cmd/simgo and builds the harness with `go1.26.8 test -c -tags verif`; /repo itself carries no hook (source_commits is empty)",
+   "enable":"each check copies /repo's working tree to a scratch dir, instruments the copy with tools/cmd/simgo (all seams except one are inserted there, never in /repo) and builds the harness with `go1.26.8 test -c -tags verif`; /repo carries one add-only file behind the tag, output/fluentdforward/knobs_verif.go (setter/getter for two unexported chunk-size limits)",
    "baseline_off_cmd":"cd /repo && go build ./... && go test -vet=off -count=1 -timeout 25m ./...",
-   "source_commits":[], "add_only":True},
+   "source_commits":["160ccad5e679a6a3bd0384212c99f5e672b59cf5"], "add_only":True},
  "engines":[], "checks":[], "not_applicable":[],
  "notes":"Deterministic simulation with fault injection; see DESIGN.md. ./check selftest proves determinism, ./check mutants <ID> proves sensitivity."}
 for e in engines:
